@@ -6,10 +6,12 @@ import (
 	"strings"
 
 	"github.com/cocosip/go-dicom-codecs/jpeg/baseline"
+	jllp "github.com/cocosip/go-dicom-codecs/jpeg/lossless"
 	"github.com/cocosip/go-dicom-codecs/jpeg/lossless14sv1"
 	"github.com/cocosip/go-dicom-codecs/jpeg/standard"
 	"github.com/cocosip/go-dicom-codecs/jpeg2000/codestream"
 	jlsll "github.com/cocosip/go-dicom-codecs/jpegls/lossless"
+	jlsnl "github.com/cocosip/go-dicom-codecs/jpegls/nearlossless"
 
 	"verifharness/internal/hx"
 )
@@ -157,7 +159,12 @@ func c08CorrBuild(c *hx.Ctx) {
 			n = r.Intn(total + 1) // fewer values than codes: Values[p] can be out of range
 		}
 		line := "ok"
-		if p, _ := hx.Guard(func() { standard.BuildStandardHuffmanTable(bits, make([]byte, n)) }); p {
+		if p, _ := hx.Guard(func() {
+			t := &standard.HuffmanTable{Bits: bits, Values: make([]byte, n)}
+			if err := t.Build(); err != nil {
+				line = "err"
+			}
+		}); p {
 			line = "panic"
 		}
 		c.Case(fmt.Sprintf("jm-build %s %d", strings.Join(strs, ","), n), line)
@@ -165,87 +172,158 @@ func c08CorrBuild(c *hx.Ctx) {
 	}
 }
 
-// c08CorrSV1: lossless14sv1.Decode vs JM.sv1Decode on streams without a DHT segment (so that no scan can be decoded:
-// the outcome is decided by the header walk and the first table lookup).
-func c08CorrSV1(c *hx.Ctx) {
-	r := hx.NewRand(c.Seed ^ 0xC0804)
-	for k := 0; k < c08N(c, 1500, 15000); k++ {
-		b := []byte{0xFF, 0xD8}
-		if r.Intn(5) == 0 {
-			b = append(b, c08MkSeg(0xE0, r.Bytes(r.Intn(6)))...)
-		}
-		nc := r.Pick([]int{1, 1, 3, 3, 2, 0})
+// c08JpegHeaderStream: SOI + frame header / tables / other segments / SOS in plausible and implausible orders.
+// dht = true puts DHT segments in (then no SOS: with a table defined a scan would be decoded, which is not modelled).
+func c08JpegHeaderStream(r *hx.Rand, sofMarker byte, dht bool, eoi bool) []byte {
+	b := []byte{0xFF, 0xD8}
+	nc := r.Pick([]int{1, 1, 3, 3, 2, 0})
+	mkSOF := func() []byte {
 		comps := []byte{}
 		for i := 0; i < nc; i++ {
-			comps = append(comps, byte(i+1), byte(r.Pick([]int{0x11, 0x11, 0x11, 0x11, 0x21, 0x10, 0x00})), 0)
+			comps = append(comps, byte(i+1), byte(r.Pick([]int{0x11, 0x11, 0x11, 0x11, 0x21, 0x22, 0x41, 0x14, 0x10, 0x00, 0x51})), byte(r.Pick([]int{0, 0, 1, 3, 4, 255})))
 		}
-		sof := append([]byte{byte(r.Pick([]int{8, 8, 12, 16, 2, 1, 0, 17, 255})), 0, byte(r.Intn(5)), 0, byte(r.Intn(5)), byte(nc)}, comps...)
-		if r.Intn(4) != 0 {
-			b = append(b, c08MkSeg(0xC3, sof)...)
+		sof := append([]byte{byte(r.Pick([]int{8, 8, 8, 12, 16, 2, 1, 0, 17, 255})), 0, byte(r.Intn(5)), 0, byte(r.Intn(5)), byte(nc)}, comps...)
+		if r.Intn(10) == 0 && len(sof) > 0 {
+			sof = sof[:r.Intn(len(sof))]
+		}
+		return c08MkSeg(sofMarker, sof)
+	}
+	mkDHT := func() []byte {
+		var pl []byte
+		for t := r.Range(1, 2); t > 0; t-- {
+			pl = append(pl, byte(r.Pick([]int{0x00, 0x01, 0x02, 0x03, 0x04, 0x10, 0x11, 0x13, 0x1f})))
+			bits := make([]byte, 16)
+			total := 0
+			for k := 0; k < r.Range(1, 3); k++ {
+				i := r.Intn(8)
+				bits[i] += byte(r.Pick([]int{1, 1, 2, 3, 4}))
+			}
+			for _, x := range bits {
+				total += int(x)
+			}
+			pl = append(pl, bits...)
+			pl = append(pl, r.Bytes(total)...)
+		}
+		if r.Intn(8) == 0 {
+			pl = pl[:r.Intn(len(pl))]
+		}
+		return c08MkSeg(0xC4, pl)
+	}
+	mkDQT := func() []byte {
+		var pl []byte
+		for t := r.Range(1, 2); t > 0; t-- {
+			pq := r.Pick([]int{0, 0, 1})
+			pl = append(pl, byte(pq<<4|r.Pick([]int{0, 1, 2, 3, 4, 15})))
+			pl = append(pl, r.Bytes(64*(pq+1))...)
 		}
 		if r.Intn(6) == 0 {
-			b = append(b, 0xFF, 0xFF, 0xFF)
+			pl = pl[:r.Intn(len(pl))]
 		}
+		return c08MkSeg(0xDB, pl)
+	}
+	mkSOS := func() []byte {
 		ns := nc
 		if r.Intn(5) == 0 {
 			ns = r.Intn(5)
 		}
 		sos := []byte{byte(ns)}
 		for i := 0; i < ns; i++ {
-			sos = append(sos, byte(i+1+r.Intn(2)*r.Intn(3)), byte(r.Pick([]int{0, 0, 0, 1, 2, 3, 4, 0x10, 0x11, 0x30, 0x40, 0xff})))
+			sos = append(sos, byte(i+1+r.Intn(2)*r.Intn(3)), byte(r.Pick([]int{0, 0, 0, 0x01, 0x10, 0x11, 0x30, 0x33, 0x40, 0x04, 0x34, 0xff})))
 		}
-		sos = append(sos, byte(r.Pick([]int{1, 1, 1, 1, 0, 2, 7})), 0, 0)
-		if r.Intn(8) != 0 {
-			b = append(b, c08MkSeg(0xDA, sos)...)
-			b = append(b, r.Bytes(r.Intn(4))...)
+		sos = append(sos, byte(r.Pick([]int{1, 1, 1, 1, 0, 2, 7, 8})), 0, 0)
+		if r.Intn(8) == 0 {
+			sos = sos[:r.Intn(len(sos))]
 		}
-		if r.Intn(3) == 0 {
-			b = append(b, 0xFF, 0xD9)
-		}
-		if r.Intn(3) == 0 {
-			b = c08MutBytes(r, b)
-		}
-		if c08HasPair(b, 0xC4) {
-			continue
-		}
-		var line string
-		if p, _ := hx.Guard(func() {
-			_, w, h, n, bd, err := lossless14sv1.Decode(b)
-			if err != nil {
-				line = "err"
+		return c08MkSeg(0xDA, sos)
+	}
+	for segs := r.Range(1, 5); segs > 0; segs-- {
+		switch r.Intn(7) {
+		case 0, 1:
+			b = append(b, mkSOF()...)
+		case 2:
+			if dht {
+				b = append(b, mkDHT()...)
 			} else {
-				line = fmt.Sprintf("ok %d %d %d %d", w, h, n, bd)
+				b = append(b, c08MkSeg(0xE0, r.Bytes(r.Intn(6)))...)
 			}
-		}); p {
-			line = "panic"
+		case 3:
+			b = append(b, mkDQT()...)
+		case 4:
+			b = append(b, c08MkSeg(0xDD, r.Bytes(r.Pick([]int{2, 2, 1, 3})))...)
+		case 5:
+			if r.Intn(3) == 0 {
+				b = append(b, 0xFF, 0xFF, 0xFF)
+			}
+			b = append(b, 0xFF, byte(r.Pick([]int{0xD0, 0xD7, 0x01})))
+		default:
+			if !dht {
+				b = append(b, mkSOS()...)
+				b = append(b, r.Bytes(r.Intn(4))...)
+			}
 		}
-		c.Case("parse-sv1 "+hx.Hex(b), line)
-		c.Count("corr:sv1:" + strings.Fields(line)[0])
-		// baseline: SOS first
-		if k%5 == 0 {
-			ns := r.Pick([]int{0, 0, 0, 1, 2})
-			pl := []byte{byte(ns)}
-			pl = append(pl, r.Bytes(r.Pick([]int{3, 3, 3, 2, 0, 5, 7}))...)
-			bb := append([]byte{0xFF, 0xD8}, c08MkSeg(0xDA, pl)...)
-			bb = append(bb, r.Bytes(r.Intn(3))...)
-			if r.Intn(4) == 0 {
-				bb = c08MutBytes(r, bb)
-			}
-			sc := c08ScanJPEG(bb)
-			if len(sc.Segs) >= 2 && sc.Segs[1].Marker == 0xDA && sc.Segs[1].Off == 2 {
-				if p, _ := hx.Guard(func() {
-					_, _, _, _, err := baseline.Decode(bb)
-					if err != nil {
-						line = "err"
-					} else {
-						line = "ok"
-					}
-				}); p {
-					line = "panic"
+	}
+	if !dht && r.Intn(2) == 0 {
+		b = append(b, mkSOS()...)
+		b = append(b, r.Bytes(r.Intn(4))...)
+	}
+	if eoi && r.Intn(3) == 0 {
+		b = append(b, 0xFF, 0xD9)
+	}
+	if r.Intn(3) == 0 {
+		b = c08MutBytes(r, b)
+	}
+	return b
+}
+
+// c08CorrSV1: lossless14sv1.Decode, jpeg/lossless.Decode and baseline.Decode vs JM.sv1Decode / jllDecode / blDecode.
+// A stream holds either DHT segments or SOS segments, never both (with a table defined the scan would be
+// entropy-decoded, which the models answer with `beyond`); baseline streams hold no EOI (convertToPixels: `beyond`).
+func c08CorrSV1(c *hx.Ctx) {
+	r := hx.NewRand(c.Seed ^ 0xC0804)
+	for k := 0; k < c08N(c, 2400, 24000); k++ {
+		dht := k%3 == 0
+		// SV1 and jpeg/lossless: SOF3
+		b := c08JpegHeaderStream(r, 0xC3, dht, true)
+		if !(c08HasPair(b, 0xC4) && c08HasPair(b, 0xDA)) {
+			var line string
+			if p, _ := hx.Guard(func() {
+				_, w, h, n, bd, err := lossless14sv1.Decode(b)
+				if err != nil {
+					line = "err"
+				} else {
+					line = fmt.Sprintf("ok %d %d %d %d", w, h, n, bd)
 				}
-				c.Case("parse-bl-sosfirst "+hx.Hex(bb), line)
-				c.Count("corr:bl-sosfirst:" + line)
+			}); p {
+				line = "panic"
 			}
+			c.Case("parse-sv1 "+hx.Hex(b), line)
+			c.Count("corr:sv1:" + strings.Fields(line)[0])
+			if p, _ := hx.Guard(func() {
+				_, w, h, n, bd, err := jllp.Decode(b)
+				if err != nil {
+					line = "err"
+				} else {
+					line = fmt.Sprintf("ok %d %d %d %d", w, h, n, bd)
+				}
+			}); p {
+				line = "panic"
+			}
+			c.Case("parse-jll "+hx.Hex(b), line)
+			c.Count("corr:jll:" + strings.Fields(line)[0])
+		}
+		// baseline: SOF0, no EOI
+		bb := c08JpegHeaderStream(r, 0xC0, dht, false)
+		if !(c08HasPair(bb, 0xC4) && c08HasPair(bb, 0xDA)) && !c08HasPair(bb, 0xD9) {
+			line := "err"
+			if p, _ := hx.Guard(func() {
+				if _, _, _, _, err := baseline.Decode(bb); err == nil {
+					line = "ok"
+				}
+			}); p {
+				line = "panic"
+			}
+			c.Case("parse-bl "+hx.Hex(bb), line)
+			c.Count("corr:bl:" + line)
 		}
 	}
 }
@@ -298,75 +376,225 @@ func c08CorrJLS(c *hx.Ctx) {
 		}
 		c.Case("parse-jls "+hx.Hex(b), line)
 		c.Count("corr:jls:" + line)
+		line = "err"
+		if p, _ := hx.Guard(func() {
+			if _, _, _, _, _, _, err := jlsnl.Decode(b); err == nil {
+				line = "ok"
+			}
+		}); p {
+			line = "panic"
+		}
+		c.Case("parse-jlsn "+hx.Hex(b), line)
+		c.Count("corr:jlsn:" + line)
 	}
 }
 
-// c08CorrJ2K: codestream.Parser.Parse vs J2kH.parse on codestreams made of SIZ/COD/QCD/COM/unknown segments, no tile-parts
+// c08CorrJ2K: codestream.Parser.Parse vs J2kH.parse: main header (SIZ/COD/COC/QCD/QCC/POC/RGN/COM/unknown), tile-parts
+// (SOT, tile-part header, SOD, data by Psot or by marker scan), tile-part merging, EOC / end of data.  MCT/MCC/MCO never occur.
 func c08CorrJ2K(c *hx.Ctx) {
 	r := hx.NewRand(c.Seed ^ 0xC0806)
 	be32 := func(v int) []byte { return []byte{byte(v >> 24), byte(v >> 16), byte(v >> 8), byte(v)} }
-	for k := 0; k < c08N(c, 1500, 15000); k++ {
+	for k := 0; k < c08N(c, 2500, 25000); k++ {
 		b := []byte{0xFF, 0x4F}
-		cs := r.Pick([]int{1, 1, 3, 2, 0, 4})
+		wild := k%3 == 0 // a third of the streams gets invalid field values and byte mutations
+		pickv := func(valid []int, any []int) int {
+			if wild {
+				return r.Pick(any)
+			}
+			return r.Pick(valid)
+		}
+		cs := pickv([]int{1, 1, 3, 2, 4}, []int{1, 1, 3, 2, 0, 4, 1, 3})
+		big := r.Intn(40) == 0
+		if big {
+			cs = 257
+		}
+		cidx := func(v int) []byte {
+			if cs > 256 {
+				return []byte{byte(v >> 8), byte(v)}
+			}
+			return []byte{byte(v)}
+		}
 		siz := []byte{0, 0}
-		for _, v := range []int{r.Intn(20), r.Intn(20), r.Intn(3), r.Intn(3), r.Intn(20), r.Intn(20), 0, 0} {
+		for _, v := range []int{1 + r.Intn(20), 1 + r.Intn(20), r.Intn(3) * r.Intn(2), r.Intn(3) * r.Intn(2), pickv([]int{4, 8, 20}, []int{0, 4, 8, 20}), pickv([]int{4, 8, 20}, []int{0, 4, 8, 20}), 0, 0} {
 			siz = append(siz, be32(v)...)
 		}
 		siz = append(siz, byte(cs>>8), byte(cs))
 		for i := 0; i < cs; i++ {
-			siz = append(siz, byte(r.Pick([]int{7, 15, 0x87, 11})), byte(r.Intn(3)), byte(r.Intn(3)))
+			siz = append(siz, byte(r.Pick([]int{7, 15, 0x87, 11})), byte(pickv([]int{1, 1, 2}, []int{1, 1, 1, 2, 0})), byte(pickv([]int{1, 1, 2}, []int{1, 1, 1, 2, 0})))
 		}
-		var segs [][]byte
-		segs = append(segs, c08MkSeg(0x51, siz))
-		lv := r.Intn(4)
-		cod := []byte{byte(r.Intn(2)), byte(r.Intn(5)), 0, byte(r.Intn(3)), byte(r.Intn(2)), byte(lv), 2, 2, 0, 1}
-		if cod[0]&1 == 1 {
-			for i := 0; i <= lv; i++ {
-				cod = append(cod, 0x55)
+		mkCOD := func() []byte {
+			lv := r.Intn(4)
+			cod := []byte{byte(r.Intn(2)), byte(r.Intn(5)), 0, byte(r.Intn(3)), byte(r.Intn(2)), byte(lv), byte(pickv([]int{2, 2, 4, 6}, []int{2, 2, 4, 6, 7, 9})), byte(pickv([]int{2, 2, 1}, []int{2, 2, 4, 1, 7})), 0, 1}
+			if cod[0]&1 == 1 {
+				for i := 0; i <= lv; i++ {
+					cod = append(cod, byte(r.Pick([]int{0x55, 0xff, 0x11})))
+				}
 			}
+			if r.Intn(5) == 0 {
+				cod = append(cod, r.Bytes(r.Intn(4))...)
+			}
+			return c08MkSeg(0x52, cod)
 		}
-		if r.Intn(5) == 0 {
-			cod = append(cod, r.Bytes(r.Intn(4))...)
+		mkCOC := func() []byte {
+			lv := r.Intn(3)
+			pl := append(cidx(r.Intn(3)), byte(r.Intn(2)), byte(lv), 2, 2, 0, 1)
+			if pl[len(cidx(0))]&1 == 1 {
+				for i := 0; i <= lv; i++ {
+					pl = append(pl, 0x44)
+				}
+			}
+			return c08MkSeg(0x53, pl)
 		}
-		segs = append(segs, c08MkSeg(0x52, cod))
-		segs = append(segs, c08MkSeg(0x5C, append([]byte{0x40}, r.Bytes(r.Intn(5))...)))
-		for extra := r.Intn(4); extra > 0; extra-- {
+		mkQCD := func() []byte { return c08MkSeg(0x5C, append([]byte{0x40}, r.Bytes(r.Intn(5))...)) }
+		mkQCC := func() []byte { return c08MkSeg(0x5D, append(append(cidx(r.Intn(3)), 0x40), r.Bytes(r.Intn(4))...)) }
+		mkPOC := func() []byte {
+			var pl []byte
+			for e := r.Range(1, 2); e > 0; e-- {
+				pl = append(pl, byte(r.Intn(3)))
+				pl = append(pl, cidx(r.Intn(3))...)
+				pl = append(pl, 0, byte(1+r.Intn(3)), byte(1+r.Intn(3)))
+				pl = append(pl, cidx(1+r.Intn(3))...)
+				pl = append(pl, byte(r.Intn(5)))
+			}
+			if r.Intn(6) == 0 {
+				pl = append(pl, 0)
+			}
+			return c08MkSeg(0x5F, pl)
+		}
+		mkRGN := func() []byte {
+			return c08MkSeg(0x5E, append(append(cidx(r.Intn(3)), 0, byte(r.Intn(9))), r.Bytes(r.Intn(2)*r.Intn(3))...))
+		}
+		mkOther := func() []byte {
 			switch r.Intn(3) {
 			case 0:
-				segs = append(segs, c08MkSeg(0x64, append([]byte{0, 1}, r.Bytes(r.Intn(5))...)))
+				return c08MkSeg(0x64, append([]byte{0, 1}, r.Bytes(r.Intn(5))...))
 			case 1:
 				sg := c08MkSeg(byte(r.Pick([]int{0x55, 0x57, 0x58, 0x60, 0x63, 0x50, 0x79, 0x30})), r.Bytes(r.Intn(5)))
-				if r.Intn(3) == 0 {
-					l := r.Intn(4)
-					sg[2], sg[3] = 0, byte(l)
+				if wild && r.Intn(3) == 0 {
+					sg[2], sg[3] = 0, byte(r.Intn(4))
 				}
-				segs = append(segs, sg)
+				return sg
 			default:
+				if !wild {
+					return c08MkSeg(0x64, append([]byte{0, 1}, r.Bytes(r.Intn(3))...))
+				}
 				l := r.Intn(5)
-				segs = append(segs, []byte{0xFF, byte(r.Pick([]int{0x5C, 0x64})), 0, byte(l), 0x40, 0, 0}[:4+r.Intn(4)])
+				return []byte{0xFF, byte(r.Pick([]int{0x5C, 0x64, 0x5D, 0x5E, 0x5F, 0x53})), 0, byte(l), 0x40, 0, 0}[:4+r.Intn(4)]
 			}
 		}
-		if r.Intn(4) == 0 {
+		var segs [][]byte
+		segs = append(segs, c08MkSeg(0x51, siz), mkCOD(), mkQCD())
+		for extra := r.Intn(5); extra > 0; extra-- {
+			switch r.Intn(6) {
+			case 0:
+				segs = append(segs, mkCOC())
+			case 1:
+				segs = append(segs, mkQCC())
+			case 2:
+				segs = append(segs, mkPOC())
+			case 3:
+				segs = append(segs, mkRGN())
+			default:
+				segs = append(segs, mkOther())
+			}
+		}
+		if wild && r.Intn(3) == 0 {
 			i, j := r.Intn(len(segs)), r.Intn(len(segs))
 			segs[i], segs[j] = segs[j], segs[i]
 		}
-		if r.Intn(8) == 0 {
+		if r.Intn(12) == 0 {
 			segs = append(segs, segs[r.Intn(len(segs))])
 		}
-		if r.Intn(8) == 0 {
+		if wild && r.Intn(5) == 0 {
 			i := r.Intn(len(segs))
 			segs = append(segs[:i], segs[i+1:]...)
 		}
 		for _, sg := range segs {
 			b = append(b, sg...)
 		}
+		// tile-parts
+		ntp := r.Pick([]int{0, 0, 1, 1, 2, 3, 4})
+		type tps struct{ next, total int }
+		st := map[int]*tps{}
+		var lastCOD, lastQCD []byte
+		for t := 0; t < ntp; t++ {
+			idx := r.Pick([]int{0, 0, 0, 1, 2})
+			s0, ok := st[idx]
+			if !ok {
+				s0 = &tps{total: r.Pick([]int{0, 0, 1, 2, 3})}
+				st[idx] = s0
+			}
+			tp, tn := s0.next, s0.total
+			s0.next++
+			if r.Intn(10) == 0 {
+				tp = r.Intn(4)
+			}
+			if r.Intn(10) == 0 {
+				tn = r.Intn(4)
+			}
+			var hdr []byte
+			for h := r.Intn(3); h > 0; h-- {
+				switch r.Intn(7) {
+				case 0:
+					if lastCOD == nil || r.Intn(3) == 0 {
+						lastCOD = mkCOD()
+					}
+					hdr = append(hdr, lastCOD...)
+				case 1:
+					if lastQCD == nil || r.Intn(3) == 0 {
+						lastQCD = mkQCD()
+					}
+					hdr = append(hdr, lastQCD...)
+				case 2:
+					hdr = append(hdr, mkCOC()...)
+				case 3:
+					hdr = append(hdr, mkQCC()...)
+				case 4:
+					hdr = append(hdr, mkPOC()...)
+				case 5:
+					hdr = append(hdr, mkRGN()...)
+				default:
+					hdr = append(hdr, mkOther()...)
+				}
+			}
+			data := r.Bytes(r.Intn(8))
+			for i := range data {
+				if r.Intn(6) == 0 {
+					data[i] = 0xFF
+				}
+			}
+			psot := 12 + len(hdr) + 2 + len(data)
+			switch r.Intn(6) {
+			case 0:
+				psot = 0
+			case 1:
+				psot += r.Range(-3, 3)
+			case 2:
+				psot = r.Intn(20)
+			}
+			if psot < 0 {
+				psot = 0
+			}
+			sot := []byte{0xFF, 0x90, 0, 10, byte(idx >> 8), byte(idx)}
+			sot = append(sot, be32(psot)...)
+			sot = append(sot, byte(tp), byte(tn))
+			if r.Intn(20) == 0 {
+				sot[3] = byte(r.Intn(12))
+			}
+			b = append(b, sot...)
+			b = append(b, hdr...)
+			if r.Intn(12) != 0 {
+				b = append(b, 0xFF, 0x93)
+			}
+			b = append(b, data...)
+		}
 		if r.Intn(6) != 0 {
 			b = append(b, 0xFF, 0xD9)
 		}
-		if r.Intn(3) == 0 {
+		if wild && r.Intn(2) == 0 {
 			b = c08MutBytes(r, b)
 		}
-		if c08HasPair(b, 0x90, 0x53, 0x5D, 0x5F, 0x5E, 0x74, 0x75, 0x77) {
+		if c08HasPair(b, 0x74, 0x75, 0x77) {
 			continue
 		}
 		var line string
@@ -376,8 +604,24 @@ func c08CorrJ2K(c *hx.Ctx) {
 				line = "err"
 				return
 			}
-			line = fmt.Sprintf("ok %d %d %d %d %d %d %d %d %d %d %d %d %d", csm.SIZ.Xsiz, csm.SIZ.Ysiz, csm.SIZ.XOsiz, csm.SIZ.YOsiz, csm.SIZ.XTsiz, csm.SIZ.YTsiz,
-				csm.SIZ.Csiz, csm.COD.NumberOfDecompositionLevels, csm.COD.NumberOfLayers, len(csm.COD.PrecinctSizes), csm.QCD.Sqcd, len(csm.QCD.SPqcd), len(csm.COM))
+			dl := 0
+			for _, t := range csm.Tiles {
+				dl += len(t.Data)
+			}
+			var sb strings.Builder
+			fmt.Fprintf(&sb, "ok %d %d %d %d %d %d %d %d %d %d %d %d %d %d", csm.SIZ.Xsiz, csm.SIZ.Ysiz, csm.SIZ.XOsiz, csm.SIZ.YOsiz, csm.SIZ.XTsiz, csm.SIZ.YTsiz,
+				csm.SIZ.Csiz, len(csm.COC), len(csm.QCC), len(csm.POC), len(csm.RGN), len(csm.COM), len(csm.Tiles), dl)
+			cd := csm.COD
+			fmt.Fprintf(&sb, " | %d %d %d %d %d %d %d %d %d", cd.Scod, cd.ProgressionOrder, cd.NumberOfLayers, cd.MultipleComponentTransform,
+				cd.NumberOfDecompositionLevels, cd.CodeBlockWidth, cd.CodeBlockHeight, cd.CodeBlockStyle, cd.Transformation)
+			for _, ps := range cd.PrecinctSizes {
+				fmt.Fprintf(&sb, " %d", int(ps.PPy)<<4|int(ps.PPx))
+			}
+			fmt.Fprintf(&sb, " | %d", csm.QCD.Sqcd)
+			for _, x := range csm.QCD.SPqcd {
+				fmt.Fprintf(&sb, " %d", x)
+			}
+			line = sb.String()
 		}); p {
 			line = "panic"
 		}
